@@ -636,23 +636,42 @@ def build_states(cfg, prog, Xtr, ytr, etr, rng):
             g.fit(X, y, exposure=np.array(etr))
         else:
             g.fit(X, y)
-        bad = mk()
-        try:
-            ybad = y.copy()
-            ybad[0] = np.nan
-            bad.fit(X, ybad)
-        except ValueError:
-            pass
-    assert g._is_fitted and not bad._is_fitted
+        # a model whose parameters have been validated by a fit that was rejected (no coef_)
+        bad = None
+        for attempt in ('nan-y', 'short-y', 'no-rows'):
+            b = mk()
+            try:
+                if attempt == 'nan-y':
+                    ybad = y.copy()
+                    ybad[0] = np.nan
+                    b.fit(X, ybad)
+                elif attempt == 'short-y':
+                    b.fit(X, y[:-1])
+                else:
+                    b.fit(X[:0], y[:0])
+            except Exception:  # noqa
+                pass
+            if not b._is_fitted:
+                bad = b
+                break
+        if bad is None:
+            bad = mk()
+    assert g._is_fitted
     return dict(fitted=g, fresh=mk, failedfit=bad)
 
 
 def pick_training(ctx, cfg, pname, prog):
-    """a training set on which the plain fit of this class / term program succeeds (first of up to 20 seeded draws)"""
-    last = None
+    """a training set on which the plain fit of this class / term program succeeds (first of up to 20 seeded draws).
+    A draw on which the fit fails with something else than a ValueError is a failing input of the property (last
+    sentence); if no draw can be fitted the class / program is skipped and reported."""
+    st_name = 'entry.training'
+    ctx.stream(st_name, 'plain fit of every class x term program on clean training data (needed by the entry-point stream)')
+    errors = []
     for t in range(20):
         rng = ctx.subrng('entry', cfg.name, pname, 'train', t)
         Xtr, ytr, _, etr = gen_data(rng, 60, prog[1], prog[4], cfg.ykind)
+        sig = dict(cls=cfg.name, terms=pname, draw=t)
+        ctx.case(st_name, sig, nontrivial=True)
         try:
             st = build_states(cfg, prog, Xtr, ytr, None, None)
             ok = bool(np.isfinite(st['fitted'].coef_).all())
@@ -662,9 +681,19 @@ def pick_training(ctx, cfg, pname, prog):
             if ok:
                 ctx.count('training draws needed', t + 1)
                 return Xtr, ytr, etr
+            errors.append('non-finite coef_')
         except ValueError as e:
-            last = e
-    raise RuntimeError('no fittable training set for %s / %s: %r' % (cfg.name, pname, last))
+            errors.append('%s: %s' % (type(e).__name__, str(e)[:100]))
+        except Exception as e:  # noqa
+            errors.append('%s: %s' % (type(e).__name__, str(e)[:100]))
+            ctx.fail(st_name, sig, dict(sig, X=Xtr, y=ytr), observed=dict(outcome=exc_class(e), message=str(e)[:160]),
+                     expected=['ok', 'ValueError (incl. subclasses)'],
+                     oracle='property text, last sentence: a fit on valid data never fails with an unrelated exception type')
+            if len([x for x in errors if not x.startswith('ValueError')]) >= 3:
+                break
+    ctx.disagree(st_name, dict(cls=cfg.name, terms=pname), errors[:5], 'fit succeeds on clean data',
+                 'no fittable clean training set: the entry-point stream skips this class / term program')
+    return None
 
 
 def fit_descr(prog, Xtr):
@@ -687,7 +716,10 @@ def entry_cases(ctx, cfgs, progs, tier, only=None):
         pn = list(progs) if thorough else [rot[(ci + ctx.seed) % len(rot)]]
         for pname in pn:
             prog = progs[pname]
-            Xtr, ytr, etr = pick_training(ctx, cfg, pname, prog)
+            tr = pick_training(ctx, cfg, pname, prog)
+            if tr is None:
+                continue
+            Xtr, ytr, etr = tr
             E = entries_for(cfg)
             for entry, args in E.items():
                 r1 = ctx.subrng('entry-states', cfg.name, pname, entry)
@@ -700,7 +732,7 @@ def entry_cases(ctx, cfgs, progs, tier, only=None):
                     # valid call arguments: a second data set drawn from the same ranges as the training data
                     Xc, yc, wc, ec = gen_data(r2, n, prog[1], prog[4], cfg.ykind)
                     if state == 'fitted':
-                        variants = [(True, True, 'full' if (thorough and pname == 'sf') else 'four'), (False, False, 'one')]
+                        variants = [(True, True, 'full' if (thorough and pname in ('sf', 'te')) else 'four'), (False, False, 'one')]
                     else:
                         variants = [(r2.random() < 0.5, r2.random() < 0.5, 'one')]
                     for vi, (give_w, give_e, mode) in enumerate(variants):
@@ -724,7 +756,7 @@ def entry_cases(ctx, cfgs, progs, tier, only=None):
                             b.update({k: v for k, v in xv.items() if k in ('quantile', 'quantity', 'term')})
                             if xv.get('sx'):
                                 b['sample_at_X'] = [list(r) for r in Xc[: max(2, n // 2)]]
-                            md = mode if xi == 0 else 'one'
+                            md = mode if (xi == 0 or xv.get('pre')) else 'one'
                             rc = ctx.subrng('entry', cfg.name, pname, entry, state, vi, sorted(xv.items()))
                             for (arg, kind, pos, A) in corruptions(entry, args, b, prog, cfg, state, rc, md):
                                 if md == 'one' and kind in ('cat_edge', 'cat_gap', 'ragged', 'f32over', 'empty') and rc.random() < 0.5:
@@ -992,7 +1024,7 @@ def hostile_cases(ctx, cfgs):
              'w0all', 'wneg', 'whuge', 'wtiny', 'randmag', 'expo']
     ns = [1, 2, 3, 5, 12] + ([30] if thorough else [])
     tps = ['sf', 'lf', 's'] if thorough else ['sf', 'lf']
-    reps = 3 if thorough else 1
+    reps = 5 if thorough else 1
     cases = []
     for cfg in cfgs:
         for n in ns:
@@ -1078,15 +1110,28 @@ def hostile_data(cfg, n, sc, rng):
     return X, y, kw
 
 
-def overflow_gap(cfg, y):
-    """G3 selector: the link transform of a valid (finite, in-domain, non-zero) target overflows in float64"""
-    if cfg.link not in ('inverse', 'inv_squared'):
-        return False
+def overflow_gap(cfg, y, X=None, linear=False):
+    """G3 selector: the link transform of a valid (finite, in-domain, non-zero) target overflows in float64, or the
+    normal equations X'X / X'link(y) of the initial estimate overflow (linear term on a huge feature)"""
     yy = np.array(y, dtype=float)
     yy = yy[yy != 0]
     with np.errstate(all='ignore'):
-        t = yy ** (-1.0 if cfg.link == 'inverse' else -2.0)
-    return bool((~np.isfinite(t)).any())
+        if cfg.link == 'inverse':
+            t = yy ** -1.0
+        elif cfg.link == 'inv_squared':
+            t = yy ** -2.0
+        elif cfg.link in ('log', 'logit'):
+            t = np.log(np.abs(yy))
+        else:
+            t = yy
+        if not np.isfinite(t).all():
+            return True
+        if linear and X is not None and len(t):
+            b = max(1.0, float(np.abs(np.array(X, dtype=float)).max()))
+            n = len(y)
+            if not (np.isfinite(b * b * n) and np.isfinite(b * float(np.abs(t).max()) * n)):
+                return True
+    return False
 
 
 def run_hostile(ctx, only=None):
@@ -1116,7 +1161,7 @@ def run_hostile(ctx, only=None):
         if res == 'ok-finite' or res.startswith('ValueError'):
             continue
         if res == 'other:AssertionError' and gap:
-            ctx.count('suspected-defect', 'G3 AssertionError in _initial_estimate: link(y) overflows for tiny valid targets (inverse / inv_squared link)')
+            ctx.count('suspected-defect', 'G3 AssertionError from the assertions of _initial_estimate / _pirls when link(y) or the initial normal equations overflow (tiny targets with the inverse / inv_squared link, huge linear features)')
             continue
         if res == 'ok-nonfinite:pred' and cfgs[cname].link in ('log', 'logit'):
             ctx.count('suspected-defect', 'G6 a fit that did not converge returns finite coef_ whose training predictions overflow in '
@@ -1162,7 +1207,7 @@ def _hostile_worker(keys):
             continue
         X, y, kw = d
         res, msg = _hostile_once(cfg, tprog[tp], X, y, kw)
-        out.append((key, res, msg, overflow_gap(cfg, y)))
+        out.append((key, res, msg, overflow_gap(cfg, y, X, linear=(tp == 'lf'))))
     return out
 
 
